@@ -235,6 +235,9 @@ func (e *Enc) builtin(x *ssa.Call, b *ssa.Builtin, st *State) {
 		e.appendOp(x, st)
 	case "copy":
 		e.copyOp(x, st)
+	case "clear":
+		e.clearOp(x, st)
+		return
 	case "close":
 		// closing a channel has no effect on the modelled state (the ghost log records sends only)
 		return
@@ -510,3 +513,47 @@ func (e *Enc) lookup(x *ssa.Lookup, st *State) {
 }
 
 var purePackages = map[string]bool{"strings": true, "strconv": true, "unicode": true, "unicode/utf8": true, "math": true, "math/bits": true, "bytes": true, "slices": true}
+
+// clearOp models the builtin clear: a slice's elements become zero values (a frame-checked write into its backing
+// array), a map loses all its keys.
+func (e *Enc) clearOp(x *ssa.Call, st *State) {
+	arg := x.Call.Args[0]
+	switch u := arg.Type().Underlying().(type) {
+	case *types.Slice:
+		sl := e.def("clrdst", e.term(arg))
+		el := u.Elem()
+		es := e.reg.sortOf(el)
+		name := elemHeapName(el)
+		srt := arrSort(arrSort(es))
+		h := st.heapGet(e, name, srt)
+		arr := Term{app("Slice_arr", sl.S), sInt}
+		n := Term{app("Slice_len", sl.S), sInt}
+		if e.fc != nil {
+			cond := tOr(tEq(n, tInt(0)), e.allowedWrite(name, arr, nil))
+			if cond.S != "true" {
+				e.oblige("frame", "clear: "+e.p.srcLine(x.Pos()), e.fc.frameTags(), cond, x.Pos())
+			}
+		}
+		old := tSelect(h, arr)
+		na := e.havoc("cleared", arrSort(es))
+		q := e.freshName("q_i")
+		lo := Term{app("Slice_off", sl.S), sInt}
+		e.assume(Term{fmt.Sprintf("(forall ((%s Int)) (! (= (select %s %s) (ite (and (<= %s %s) (< %s (+ %s %s))) %s (select %s %s))) :pattern ((select %s %s))))",
+			q, na.S, q, lo.S, q, q, lo.S, n.S, e.reg.zero(el).S, old.S, q, na.S, q), sBool})
+		st.heap[name] = e.def(name, tStore(h, arr, na))
+	case *types.Map:
+		m := e.term(arg)
+		dName, _, kSort, _, dSort, _ := e.mapSorts(u)
+		if e.fc != nil {
+			cond := tOr(tEq(m, tInt(0)), e.allowedWrite(dName, m, nil))
+			if cond.S != "true" {
+				e.oblige("frame", "clear: "+e.p.srcLine(x.Pos()), e.fc.frameTags(), cond, x.Pos())
+			}
+		}
+		hd := st.heapGet(e, dName, dSort)
+		empty := Term{app("(as const "+arrSort2(kSort, sBool)+")", "false"), ""}
+		st.heap[dName] = e.def(dName, tIte(tEq(m, tInt(0)), hd, tStore(hd, m, empty)))
+	default:
+		panic(unsupported{"clear of " + arg.Type().String()})
+	}
+}
